@@ -12,7 +12,8 @@ CHECKS = {
             "Generated instance forests are written by rbx_binary under all three compressions and read back; the decoded DOM is compared, "
             "bit-exactly and under only the normalisations the property names, with an expectation computed from the generated spec through "
             "an independent database resolver. All 3^9 matrices over {-1,0,1} (incl. the 24 bases) are enumerated; a fixed list of large cases (values longer than the reader's 64 Ki pre-allocation caps, > 64 Ki instances of one class, "
-            "> 64 Ki classes) and, through the cfg hook, sweeps of the scalar codecs (all 2^32 inputs in the thorough tier) are run. Sampling elsewhere: absence "
+            "> 64 Ki classes) and, through the cfg hook, sweeps of the scalar codecs (all 2^32 inputs in the thorough tier) are run. Every entry point and option chain is exercised as the same codec (to_writer / Serializer, from_reader / Deserializer, "
+            "settings in either order), one Serializer / Deserializer value is reused for several files, and one case in eight runs after injected failed saves on the same thread. Sampling elsewhere: absence "
             "of counter-examples among N cases, with label histograms showing the narrow regions were hit.",
             "trusts: proptest, the harness's own resolver over the public reflection types (cross-checked in C16), lz4/zstd crates",
             "DESIGN.md 2/C01"),
@@ -20,7 +21,8 @@ CHECKS = {
             "property-based round-trip testing (proptest) over the three option pairings, expectation model computed from the spec",
             "Generated forests restricted to XML-supported types and XML-1.0-legal characters (incl. ']]>', markup, CR/LF, whitespace-only) are written "
             "by rbx_xml and read back under default/default, WriteUnknown+ReadUnknown and NoReflection+NoReflection; the decoded DOM is compared with "
-            "an expectation computed from the spec (floats bit-exact unless NaN); a fixed list of large cases (long text / base64 / shared strings / sequences, > 64 Ki instances). Sampling: absence of counter-examples among N cases.",
+            "an expectation computed from the spec (floats bit-exact unless NaN); a fixed list of large cases (long text / base64 / shared strings / sequences, > 64 Ki instances); from_str / *_default entry points and the three option call chains must agree; DoesNotSerialize properties are a side-check "
+            "(dropped, or kept as an unknown property, nothing else changes). Sampling: absence of counter-examples among N cases.",
             "trusts: proptest, the harness's database resolver (cross-checked in C16)",
             "DESIGN.md 2/C02"),
     "C03": ("exploration",
@@ -69,22 +71,24 @@ CHECKS = {
             "trusts: PropertyMigration::perform and the BrickColor palette as the definition of a migrated value (their cross-path agreement is C15's subject)",
             "DESIGN.md 2/C08"),
     "C09": ("exploration",
-            "model-based (stateful) property testing of operation histories with proptest + bounded-exhaustive enumeration of short histories",
+            "model-based (stateful) property testing of operation histories with proptest + bounded-exhaustive enumeration of short histories + fixed large / deep cases",
             "Generated histories of insert/destroy/transfer_within/transfer/clone*/into_raw+from_raw over 1-3 DOMs (arguments always inside the documented "
             "preconditions) are executed on the real WeakDoms; after every step the forest invariants are checked through the public API. All histories of "
-            "length <= 2 (quick) / <= 3 (thorough) over every start tree with <= 4 nodes are enumerated exhaustively.",
+            "length <= 2 (quick) / <= 3 (thorough) over every start tree with <= 4 nodes are enumerated exhaustively. Some DOMs and builders draw their referents on freshly spawned threads; large start trees (1023..12 001, thorough ..70 001 instances, "
+            "four shapes) go through a fixed 12-step history; destroy / descendants / into_raw on a chain of 100 000 nested instances run in a child process.",
             "trusts: the reference model's reading of the documented operation semantics; the instance set is only fully visible through into_raw (done at the end of every history and as a random step)",
             "DESIGN.md 2/C09-C12"),
     "C10": ("exploration",
             "model-based (stateful) property testing: lock-step diff of the real DOMs against a reference model after every operation",
             "Same histories as C09; after every step every DOM is compared instance by instance (referent, parent, child order, name, class, properties, instance set) "
-            "with a plain ordered-tree model executing the documented meaning of the step (a UniqueId that changes without a collision is reported here as well as under C12).",
+            "with a plain ordered-tree model executing the documented meaning of the step (a UniqueId that changes without a collision is reported here as well as under C12). Builders are spelled through every builder API variant; start trees of up to 12 001 (thorough 70 001) instances; "
+            "transfer / transfer_within on a chain of 100 000 nested instances in a child process.",
             "trusts: the reference model (about 300 lines, documented semantics only)",
             "DESIGN.md 2/C09-C12"),
     "C11": ("exploration",
             "model-based property testing of clone operations inside generated histories (isomorphism + three-way Ref rule oracle)",
             "Every clone_within / clone_into_external / clone_multiple_into_external inside the C09 histories is bound to its source by a parallel walk and checked for "
-            "fresh referents, parentless roots, identical shape/order/names/classes/properties, Refs rewritten by the documented three-way rule, and an untouched source.",
+            "fresh referents, parentless roots, identical shape/order/names/classes/properties, Refs rewritten by the documented three-way rule, and an untouched source. The three clone operations also run on a chain of 100 000 nested instances in a child process.",
             "trusts: the reference model's three-way rule taken from the doc comments of clone_into_external / clone_multiple_into_external",
             "DESIGN.md 2/C09-C12"),
     "C12": ("exploration",
@@ -99,14 +103,16 @@ CHECKS = {
             "(1) proptest-generated mutation sequences over valid binary/XML/attribute inputs are decoded in sandboxed worker processes; any panic, abort, single allocation "
             "beyond max(64 MiB, 4096 x input) or reproducible time-out is a violation keyed by site. (2) every strict prefix of generated valid files must be rejected - all cut points "
             "enumerated per file. (3) generated read() partitions incl. one-byte reads and ErrorKind::Interrupted must not change the decoded DOM / the accept-reject verdict. (4) a sink "
-            "that fails after k bytes, for every k below the output length, must yield Err. The XML reader's per-Item recursion (stack overflow on ~20k nested Items) is an open finding.",
+            "that fails after k bytes, for every k below the output length, must yield Err. Also: attribute blobs and files of 70 000 / 200 000 incompressible bytes through short and interrupted reads (every format), and arbitrary bytes into the "
+            "MaterialColors / Tags blob decoders directly and through a property of a binary / XML file. The XML reader's per-Item recursion (stack overflow on ~20k nested Items) is an open finding.",
             "trusts: the 20 s watchdog as the definition of a hang; the allocator limit as the executable form of 'memory unrelated to the input size'",
             "DESIGN.md 2/C13"),
     "C14": ("exploration",
             "property-based differential testing against an independent attribute codec written from docs/attributes.md; bounded-exhaustive id sweeps",
             "Generated attribute maps are round-tripped through rbx_types, decoded by a reference decoder written from docs/attributes.md, compared byte for byte with the reference "
             "encoding, and blobs from the reference encoder (entry order shuffled) are decoded by the crate; the blob both file formats store for Instance.Attributes is extracted and "
-            "compared with Attributes::to_writer. All 256 rotation-id bytes, all BrickColor numbers and all 256 type-id bytes are enumerated, and a fixed list of long values (strings and sequences around and above 64 Ki items, last or followed by another entry).",
+            "compared with Attributes::to_writer. All 256 rotation-id bytes, all BrickColor numbers and all 256 type-id bytes are enumerated, and a fixed list of long values (strings and sequences around and above 64 Ki items, last or followed by another entry). The Attributes map API (insert / with / remove / extend / clear / drain / clone / collect / reload) is run as "
+            "generated histories against a plain map, encoding at arbitrary points: the blob always describes the map as it is now.",
             "trusts: docs/attributes.md; rotation snapping within f32::EPSILON is accepted as in the binary format",
             "DESIGN.md 2/C14"),
     "C15": ("exploration",
@@ -114,7 +120,8 @@ CHECKS = {
             "Every Migrate property of the database x inheriting classes x every legacy value (all Enum.Font items, all BrickColor numbers, both booleans, a URI pool) x {new property absent, "
             "explicit value with either encounter order} goes through write-binary, write-XML, read-binary (legacy column from the reference encoder) and read-XML (legacy element from the reference "
             "generator); every path must yield exactly the new property with the tabulated / migrated value, an explicit value must win, the legacy name must not survive. Enum.Font items without a "
-            "migration are open findings.",
+            "migration are open findings. Context sub-check: the migrating instance is placed under a same-class parent that migrates too, after another class that sets the new property, two levels deep, between same-class siblings - "
+            "through every path it must show what it shows alone.",
             "trusts: PropertyMigration::perform for the font table (agreement across paths is what is checked), BrickColor::to_color3uint8 as the database's colour table",
             "DESIGN.md 2/C15"),
     "C16": ("exploration",
@@ -123,12 +130,13 @@ CHECKS = {
             "(class, property) is driven through both codecs (no panic, serialized name as predicted); an instance of every class populated with its defaults must survive both formats; "
             "rbx_dom_lua/src/database.json must equal the msgpack database; superclasses / superclasses_iter / has_superclass / find_default_property of rbx_reflection are compared with an own walk for every class "
             "(has_superclass against every other class); random coherent databases (2-23 classes, chains up to 23 deep, aliases, serializes-as links, defaults at random levels) get the same API comparison and a "
-            "deep class written and read by both codecs under that database; random single corruptions of a cloned database must all be detected.",
+            "deep class written and read by both codecs under that database; the database written as MessagePack / JSON and read back is the same database; patches/*.yml agree with the bundled database entry by entry; "
+            "rbx_reflector's patches.rs and defaults.rs (compiled into the harness by path) are run as a pipeline on generated dumps, patch files and defaults places and must yield a coherent database with every default where the inputs put it; random single corruptions of a cloned database must all be detected.",
             "trusts: exhaustive only over the database compiled into the tree; a database regenerated from a newer dump cannot be produced offline (generated coherent databases stand in for it)",
             "DESIGN.md 2/C16"),
     "C17": ("exploration",
             "property-based round-trip testing through 7 serde codecs and the text forms; exhaustive u16 / u8 sweeps; fixed list of long values; independent base64 wire-form oracle; fixture replay of allValues.json",
-            "Generated values of all 40 Variant variants go through serde_json (str, slice, reader, Value), bincode and rmp_serde (named, compact) and must come back bit-identical (byte strings also compared with an own RFC 4648 encoder; long values with lengths around every power of two from 2^8 to 2^17 and 10^6); Ref and "
+            "Generated values of all 40 Variant variants go through serde_json (str, slice, reader, Value), bincode and rmp_serde (named, compact) and must come back bit-identical (byte strings also compared with an own RFC 4648 encoder; long values with lengths around every power of two from 2^8 to 2^17 and 10^6; reader-based entry points incl. a one-byte-per-read source; decoding after rejected documents on the same thread); Ref and "
             "UniqueId go through Display/FromStr; every u16 BrickColor number and every Faces / Axes byte is enumerated; Tags and MaterialColors blobs are converted both ways; each sample of "
             "rbx_dom_lua/src/allValues.json must decode to its stated type and re-encode to the same JSON.",
             "trusts: serde_json (float_roundtrip), bincode, rmp_serde as correct transports",
@@ -139,7 +147,8 @@ CHECKS = {
             "one thread advance per step, so a schedule is a choice sequence that can be enumerated, generated, shrunk and replayed. After every step all live handles are inspected "
             "(bytes, ==, hash, shared buffer), and at quiescence the table must hold no entry of the case. All schedules of all pairs of 2-operation (quick) / 3-operation and triples of "
             "2-operation (thorough) programs are enumerated exhaustively. Free-running part: 16 threads churn (create and drop) four contents so that reference counts cross zero under contention, with checker threads comparing "
-            "buffers of back-to-back handles, panics captured per thread and a poisoned-table probe; then a mixed new/clone/drop phase.",
+            "buffers of back-to-back handles, panics captured per thread and a poisoned-table probe; then a mixed new/clone/drop phase. Single-threaded API sequences (new / clone / clone_from / assignment / drop / Vec::clone_from, "
+            "optionally next to 1000-2600 other live contents) are generated and checked with the same oracles.",
             "trusts: std's Arc/Mutex; schedules are controlled at exactly the granularity the property names; the free-running part is a stress sample",
             "DESIGN.md 2/C18"),
 }
